@@ -187,6 +187,8 @@ class Scenario:
                 ctx.probe("c05_non_maximal_inner_frame")
             plain = b"".join(frames)
             self.ctx.probe("secure_writes")
+            if len(plain) >= 1023 and len(plain) % 1024 in (0, 1, 1023):
+                self.ctx.probe({0: "request_exact_multiple_of_1024", 1: "request_multiple_of_1024_plus_1", 1023: "request_multiple_of_1024_minus_1"}[len(plain) % 1024])
             ctx.state("frames", min(len(frames), 6), len(plain) % 1024 in (0, 1, 1023))
         else:
             plain = data
